@@ -584,10 +584,11 @@ def Access.touches : Access → Desc → Bool
 
 /-! ## `AdwinProcess` accessors -/
 
-/-- `_get_dict_item_case_insensitive`: the first key (in dict order) that equals `key` ignoring case -/
+/-- `_get_dict_item_case_insensitive`: the first key (in dict order) with `key.upper() == dict_item_key.upper()`
+(the folding the parser's duplicate checks use) -/
 def lookupCI {β : Type} : Dict Str β → Str → Option β
   | [], _ => none
-  | (k, v) :: rest, key => if lower key = lower k then some v else lookupCI rest key
+  | (k, v) :: rest, key => if upper key = upper k then some v else lookupCI rest key
 
 /-- what an accessor leaves behind: the device, and a value or the exception that escaped -/
 structure Out (α : Type) where
@@ -764,6 +765,156 @@ case-insensitively, or `0` -/
 def startParams (b : Dict Str Desc) (kwargs : Dict Str Val) : List (Str × Val) :=
   b.map (fun kv => (kv.1, match lookupCI kwargs kv.1 with | some v => v | none => .int 0))
 
+/-! ## The same accessors with the argument validation of `Adwin_Base` (qmi/instruments/adwin/adwin.py)
+
+`Adwin_Base.get_par/get_fpar/set_par/set_fpar` raise ValueError unless `1 ≤ index ≤ MAX_PAR (80)`;
+`get_data/set_data` raise ValueError unless `1 ≤ data_idx ≤ MAX_DATA (200)` and `first_index ≥ 1`
+(`get_data` also wants `count ≥ 1`); `set_data` on an integer array raises ValueError unless the numpy array
+it is given has an integer dtype — `np.array(values)` of a merged range has one as soon as every value is an
+`int`, and a float dtype as soon as one value is a `float`.  Every check precedes the library call, so a
+refused call leaves no trace in the access log.  `ty d = true` says `Data_d` is an integer array
+(`Data_Type`, a fact about the device).  The unvalidated functions above are the semantics of the ADwin
+library underneath; `Props/C20.lean` proves that on existing registers and well-typed values the validated
+accessors coincide with them. -/
+
+def parOk (i : Nat) : Bool := decide (1 ≤ i) && decide (i ≤ 80)
+def dataOk (d : Nat) : Bool := decide (1 ≤ d) && decide (d ≤ 200)
+
+/-- does the register exist as far as `Adwin_Base` can tell (array lengths are the library's business) -/
+def regOk : Desc → Bool
+  | .par i => parOk i
+  | .fpar i => parOk i
+  | .elem d e => dataOk d && decide (1 ≤ e)
+
+def Val.isFlt : Val → Bool
+  | .flt _ => true
+  | .int _ => false
+
+/-- `Adwin_Base.set_data` refuses a float-dtype array for an integer `Data` array -/
+def dtypeOk (ty : Nat → Bool) (d : Nat) (vs : List Val) : Bool := !(ty d && vs.any Val.isFlt)
+
+/-- `AdwinProcess.get_par` over the validating driver -/
+def getParC (b : Dict Str Desc) (dv : Dev) (name : Str) : Out Val :=
+  match lookupCI b name with
+  | none => ⟨dv, .error .valueError⟩
+  | some r => if regOk r then getPar b dv name else ⟨dv, .error .valueError⟩
+
+/-- `AdwinProcess.set_par` over the validating driver (the `isinstance(value, int)` test for a Par comes first) -/
+def setParC (b : Dict Str Desc) (ty : Nat → Bool) (dv : Dev) (name : Str) (v : Val) : Out Unit :=
+  match lookupCI b name with
+  | none => ⟨dv, .error .valueError⟩
+  | some (.par i) =>
+    match v with
+    | .flt _ => ⟨dv, .error .typeError⟩
+    | .int _ => if parOk i then ⟨dv.doSetPar i v, .ok ()⟩ else ⟨dv, .error .valueError⟩
+  | some (.fpar i) => if parOk i then ⟨dv.doSetFPar i v, .ok ()⟩ else ⟨dv, .error .valueError⟩
+  | some (.elem d e) =>
+    if regOk (.elem d e) && dtypeOk ty d [v] then ⟨dv.doSetData d e [v], .ok ()⟩ else ⟨dv, .error .valueError⟩
+
+def getPhase1C (b : Dict Str Desc) : List Str → GState → Except (Dev × PyExc) GState
+  | [], st => .ok st
+  | n :: ns, st =>
+    match lookupCI b n with
+    | none => .error (st.dev, .valueError)
+    | some (.par i) =>
+      if parOk i then
+        let (dv', v) := st.dev.doGetPar i
+        getPhase1C b ns { st with dev := dv', result := dictSet st.result n v }
+      else .error (st.dev, .valueError)
+    | some (.fpar i) =>
+      if parOk i then
+        let (dv', v) := st.dev.doGetFPar i
+        getPhase1C b ns { st with dev := dv', result := dictSet st.result n v }
+      else .error (st.dev, .valueError)
+    | some (.elem d e) =>
+      getPhase1C b ns { st with pdata := pdataSet st.pdata d e n }
+
+def getRangesC (d : Nat) (elems : Dict Nat Str) : List (Nat × Nat) → Dev → Dict Str Val → Except (Dev × PyExc) (Dev × Dict Str Val)
+  | [], dv, res => .ok (dv, res)
+  | (s, e) :: rs, dv, res =>
+    if dataOk d && decide (1 ≤ s) && decide (1 ≤ e + 1 - s) then
+      let (dv', vals) := dv.doGetData d s (e + 1 - s)
+      match storeValues elems s 0 vals res with
+      | .error x => .error (dv', x)
+      | .ok res' => getRangesC d elems rs dv' res'
+    else .error (dv, .valueError)
+
+def getArraysC (pd : Dict Nat (Dict Nat Str)) : List Nat → Dev → Dict Str Val → Except (Dev × PyExc) (Dev × Dict Str Val)
+  | [], dv, res => .ok (dv, res)
+  | d :: ds, dv, res =>
+    match dictGet pd d with
+    | none => .error (dv, .keyError)
+    | some elems =>
+      match getRangesC d elems (findRanges (dictKeys elems)) dv res with
+      | .error x => .error x
+      | .ok (dv', res') => getArraysC pd ds dv' res'
+
+/-- `AdwinProcess.get_par_multiple` over the validating driver -/
+def getParMultipleC (b : Dict Str Desc) (dv : Dev) (names : List Str) : Out (Dict Str Val) :=
+  match getPhase1C b names { dev := dv, result := [], pdata := [] } with
+  | .error (dv', x) => ⟨dv', .error x⟩
+  | .ok st =>
+    match getArraysC st.pdata (sortNat (dictKeys st.pdata)) st.dev st.result with
+    | .error (dv', x) => ⟨dv', .error x⟩
+    | .ok (dv', res) => ⟨dv', .ok res⟩
+
+def setPhase1C (b : Dict Str Desc) : List (Str × Val) → SState → Except (Dev × PyExc) SState
+  | [], st => .ok st
+  | (n, v) :: ps, st =>
+    match lookupCI b n with
+    | none => .error (st.dev, .valueError)
+    | some (.par i) =>
+      match v with
+      | .int _ => if parOk i then setPhase1C b ps { st with dev := st.dev.doSetPar i v } else .error (st.dev, .valueError)
+      | .flt _ => .error (st.dev, .typeError)
+    | some (.fpar i) =>
+      if parOk i then setPhase1C b ps { st with dev := st.dev.doSetFPar i v } else .error (st.dev, .valueError)
+    | some (.elem d e) => setPhase1C b ps { st with pdata := pdataSet st.pdata d e v }
+
+def setRangesC (ty : Nat → Bool) (d : Nat) (elems : Dict Nat Val) : List (Nat × Nat) → Dev → Except (Dev × PyExc) Dev
+  | [], dv => .ok dv
+  | (s, e) :: rs, dv =>
+    match collectValues elems s (e + 1 - s) with
+    | .error x => .error (dv, x)
+    | .ok vals =>
+      if dataOk d && decide (1 ≤ s) && dtypeOk ty d vals then setRangesC ty d elems rs (dv.doSetData d s vals)
+      else .error (dv, .valueError)
+
+def setArraysC (ty : Nat → Bool) (pd : Dict Nat (Dict Nat Val)) : List Nat → Dev → Except (Dev × PyExc) Dev
+  | [], dv => .ok dv
+  | d :: ds, dv =>
+    match dictGet pd d with
+    | none => .error (dv, .keyError)
+    | some elems =>
+      match setRangesC ty d elems (findRanges (dictKeys elems)) dv with
+      | .error x => .error x
+      | .ok dv' => setArraysC ty pd ds dv'
+
+/-- `AdwinProcess.set_par_multiple` over the validating driver -/
+def setParMultipleC (b : Dict Str Desc) (ty : Nat → Bool) (dv : Dev) (params : List (Str × Val)) : Out Unit :=
+  match setPhase1C b params { dev := dv, pdata := [] } with
+  | .error (dv', x) => ⟨dv', .error x⟩
+  | .ok st =>
+    match setArraysC ty st.pdata (sortNat (dictKeys st.pdata)) st.dev with
+    | .error (dv', x) => ⟨dv', .error x⟩
+    | .ok dv' => ⟨dv', .ok ()⟩
+
+/-! ## `ProgramInfo.from_config` with explicitly configured parameters (`parse_parameters = False`) -/
+
+/-- the loop `for (name, desc) in param_items: if any(name.upper() == other.upper() for other in param): raise …;
+param[name] = desc`; `.error n` = `QMI_ConfigurationException("Duplicate use of parameter name n …")` -/
+def cfgInsert (param : Dict Str Desc) : List (Str × Desc) → Except Str (Dict Str Desc)
+  | [] => .ok param
+  | (n, d) :: rest => if (lookupCI param n).isSome then .error n else cfgInsert (dictSet param n d) rest
+
+/-- `param_items`: first `config.par`, then `config.fpar`, then `config.par_array` (each a dict, in its own order) -/
+def cfgItems (par fpar : Dict Str Nat) (parArray : Dict Str (Nat × Nat)) : List (Str × Desc) :=
+  par.map (fun kv => (kv.1, Desc.par kv.2)) ++ fpar.map (fun kv => (kv.1, Desc.fpar kv.2)) ++
+  parArray.map (fun kv => (kv.1, Desc.elem kv.2.1 kv.2.2))
+
+def fromConfig (par fpar : Dict Str Nat) (parArray : Dict Str (Nat × Nat)) : Except Str (Dict Str Desc) :=
+  cfgInsert [] (cfgItems par fpar parArray)
+
 /-! ## The one-at-a-time reference folds (what the batch accessors are compared with) -/
 
 /-- `for n in names: result[n] = get_par(n)`; stops at the first exception -/
@@ -781,5 +932,20 @@ def setFold (b : Dict Str Desc) : List (Str × Val) → Dev → Out Unit
     match setPar b dv n v with
     | ⟨dv', .error x⟩ => ⟨dv', .error x⟩
     | ⟨dv', .ok _⟩ => setFold b ps dv'
+
+/-- the one-at-a-time folds over the validating driver -/
+def getFoldC (b : Dict Str Desc) : List Str → Dev → Dict Str Val → Out (Dict Str Val)
+  | [], dv, res => ⟨dv, .ok res⟩
+  | n :: ns, dv, res =>
+    match getParC b dv n with
+    | ⟨dv', .error x⟩ => ⟨dv', .error x⟩
+    | ⟨dv', .ok v⟩ => getFoldC b ns dv' (dictSet res n v)
+
+def setFoldC (b : Dict Str Desc) (ty : Nat → Bool) : List (Str × Val) → Dev → Out Unit
+  | [], dv => ⟨dv, .ok ()⟩
+  | (n, v) :: ps, dv =>
+    match setParC b ty dv n v with
+    | ⟨dv', .error x⟩ => ⟨dv', .error x⟩
+    | ⟨dv', .ok _⟩ => setFoldC b ty ps dv'
 
 end QmiModel.Adbasic
